@@ -41,4 +41,8 @@ var configs = map[string]config{
 		Assumptions: assume("'marked as a failure' is checked for errors returned by the default and the reporting parser; for the two fail-on-validation-error modes, whose purpose is to return non-fatal validation errors, the check is that a failure-marked error implies the default parser fails too (DESIGN §7.3)", "the documented type set is the list of constants exported by errors/codes.go; the missing-scheme classification is tied to the reference model's failure state")},
 	"C16": {Tests: "^TestC16$", QuickChecks: 50000, ThoroughChecks: 400000, QuickShards: 8, ThoroughShards: 16,
 		Assumptions: assume(modelAssumption, "an option's trigger is decided on the input text (after the parser's own trimming and tab/newline removal) and deliberately conservatively: when in doubt the neutrality clause is skipped, never failed", "options outside the statement's list (encoding override, host callbacks, skip-trailing-slash-normalization, fail-on-validation-error) are not part of this check; sort order of names with invalid UTF-8 or mixing supplementary-plane with U+E000..U+FFFF is not judged")},
+	"C17": {Tests: "^TestC17$", QuickChecks: 30000, ThoroughChecks: 300000, QuickShards: 8, ThoroughShards: 16,
+		Assumptions: assume("for GoogleSafeBrowsing and Semantic the statement quantifies over the ordinary-web-URL grammar only; credentials are unreserved characters written literally and parameter names are read as non-empty (the empty-name case is the recorded finding KF-C17-empty-pair, DESIGN §7.7)", "a first parse that fails makes the case vacuous, except that URLs of the web grammar must be accepted")},
+	"C18": {Tests: "^TestC18$", QuickChecks: 30000, ThoroughChecks: 250000, QuickShards: 8, ThoroughShards: 16,
+		Assumptions: assume("equivalence classes are generated constructively: one abstract web URL, two independently drawn spellings using only the variations the statement lists; decoding-free profiles get only the subset the URL Standard itself normalises", "a dot segment inserted at the very end is only used when the URL ends in a slash anyway (otherwise it would add one, which is not a spelling difference)")},
 }
